@@ -79,23 +79,17 @@ Proof. exact (my_optimal o K h lam m s Q c y y' cy). Qed.
    approximate cost function eoq_with_disruptions_cost(..., approximate=True).  (demand_rate = 0 passes the guards and
    gives Q = 0: excluded.) *)
 Theorem C10_eoqd_approx_coherent (K h p lam a b Q c : R) : 0 < lam ->
-  eoq_with_disruptions RO K h p lam a b true = Some (Q, c) -> eoq_with_disruptions_cost RO Q K h p lam a b true = Some c.
+  eoq_with_disruptions__approximate_True RO K h p lam a b = Some (Q, c) -> eoq_with_disruptions_cost RO Q K h p lam a b true = Some c.
 Proof. exact (eoqd_approx_coherent o K h p lam a b Q c). Qed.
 Theorem C10_eoqd_approx_optimal (K h p lam a b Q c y cy : R) : 0 < lam ->
-  eoq_with_disruptions RO K h p lam a b true = Some (Q, c) -> eoq_with_disruptions_cost RO y K h p lam a b true = Some cy -> c <= cy.
+  eoq_with_disruptions__approximate_True RO K h p lam a b = Some (Q, c) -> eoq_with_disruptions_cost RO y K h p lam a b true = Some cy -> c <= cy.
 Proof. exact (eoqd_approx_optimal o K h p lam a b Q c y cy). Qed.
 
-(* ---- EOQ with disruptions, exact model: the decision is produced by golden_section_search (a field of the oracle
-   record).  Coherence holds relative to "the search returns its own evaluation of the objective".
-   Optimality is NOT proved (it needs unimodality of the exact cost on [Q~/10, 10 Q~] and C19's search theorem):
-   full statement kept as a Definition; oracle-search only. *)
-Theorem C10_eoqd_exact_coherent_partial (K h p lam a b Q c : R) :
-  (forall f lo hi x fx, o_gss o f lo hi = Some (x, fx) -> f x = Some fx) ->
-  eoq_with_disruptions RO K h p lam a b false = Some (Q, c) -> eoq_with_disruptions_cost RO Q K h p lam a b false = Some c.
-Proof. exact (eoqd_exact_coherent o K h p lam a b Q c). Qed.
-Definition C10_eoqd_exact_optimal_statement : Prop := forall (tol : R) (K h p lam a b Q c y cy : R), 0 < lam -> 0 < tol ->
-  eoq_with_disruptions RO K h p lam a b false = Some (Q, c) -> eoq_with_disruptions_cost RO y K h p lam a b false = Some cy ->
-  c <= cy + tol.
+(* ---- EOQ with disruptions, exact model: eoq_with_disruptions(approximate=False) widens a bracket with while loops and
+   calls golden_section_search -- outside the translator's subset, so there is no definition to state a theorem about
+   ([eoq_with_disruptions__approximate_True] above is the SAME Python function translated with approximate fixed to
+   True, which makes only the closed-form branch reachable).  Coherence and optimality of the exact mode are checked by
+   the oracle only (search). *)
 End Deterministic.
 
 (* ---- normal-demand newsvendors, relative to explicit hypotheses about scipy.stats.norm (cdf' = pdf, pdf' = -z pdf,
@@ -206,7 +200,6 @@ Print Assumptions C10_eoq_multiplicative_yield_coherent.
 Print Assumptions C10_eoq_multiplicative_yield_optimal.
 Print Assumptions C10_eoqd_approx_coherent.
 Print Assumptions C10_eoqd_approx_optimal.
-Print Assumptions C10_eoqd_exact_coherent_partial.
 Print Assumptions C10_newsvendor_normal_coherent.
 Print Assumptions C10_newsvendor_normal_optimal.
 Print Assumptions C10_newsvendor_normal_cost_is_eval.
